@@ -221,6 +221,7 @@ class Executor:
         self.dicts = {}     # D<n> -> dict object
         self.dorder = []
         self.embs = {}
+        self.reps = {}      # raw representations driven by primitive calls (Layer R)
         self.den = 2        # filtration indices are integers over this denominator
 
     # -- tokens ------------------------------------------------------------------------------------------
@@ -441,6 +442,19 @@ class Executor:
         if op == 'vr':
             e = self.embs[h]
             self.put(t[2], e.vietorisRipsComplex(self.vr_eps)); return 'ok -'
+        if op == 'rnew':
+            self.reps[h] = SimplicialComplex(); return 'ok -'
+        if op in ('radd', 'rrel', 'rdel', 'robs'):
+            if h not in self.reps:
+                raise NoObject(h)
+            rep = self.reps[h].representation()
+            if op == 'radd':
+                return 'ok ' + self.T(rep.addSimplex(self.names(t[3]), self.name(t[2]), dict()))
+            if op == 'rrel':
+                rep.relabelSimplex(self.name(t[2]), self.name(t[3])); return 'ok -'
+            if op == 'rdel':
+                rep.forceDeleteSimplex(self.name(t[2])); return 'ok -'
+            return 'ok ' + self.robs(rep)
         if op == 'q':
             return self.query(O[h], t[2:])
         if op == 'obs':
@@ -546,6 +560,23 @@ class Executor:
                 self.idx_tok(c.getIndex()), ','.join(self.idx_tok(i) for i in c.indices()),
                 ','.join('%s:%s' % (self.T(s), self.idx_tok(c.addedAtIndex(s))) for s in ss))
         return out
+
+    def robs(self, rep):
+        """everything the representation interface shows: per-order listings, boundary operators, basis matrices
+        (rebuilt from basisOf), and per simplex faces / cofaces / basis / order / index"""
+        mo = rep.maxOrder()
+        idx = [list(rep.simplicesOfOrder(k)) for k in range(mo + 1)]
+        bops = ['%d:%s' % (k, fmt_mat(rep.boundaryOperator(k))) for k in range(mo + 2)]
+        pts = idx[0] if idx else []
+        bases = []
+        for k in range(mo + 1):
+            rows = [''.join('1' if p in rep.basisOf(s) else '0' for s in idx[k]) for p in pts]
+            bases.append('%d:%dx%d:%s' % (k, len(pts), len(idx[k]), '|'.join(rows)))
+        per = []
+        for s in rep.simplices(False):
+            per.append('%s:%s:%s:%s:%d:%d' % (self.T(s), self.fs(rep.faces(s)), self.fs(rep.cofaces(s)), self.fs(rep.basisOf(s)),
+                                               rep.orderOf(s), rep.indexOf(s)))
+        return 'max=%d I=[%s] B=[%s] S=[%s] Q=[%s]' % (mo, ','.join(self.fl(l) for l in idx), ','.join(bops), ','.join(bases), ';'.join(per))
 
     def alias(self):
         ids = []
